@@ -85,6 +85,11 @@ func (p *poller) addConn(c *Conn) error {
 	if c.typ != ConnTypeUDPClientFromRead {
 		go p.readConn(c)
 	}
+	// Stop takes the table once: a connection that is published behind
+	// that (AddConn from a user's goroutine) closes itself.
+	if p.g.isStopping() {
+		_ = c.Close()
+	}
 
 	return nil
 }
